@@ -16,9 +16,16 @@ CONSTANTS MCShapes,     \* set of shape names (CopyShapes)
           MCTgtByDigest,
           MaxFaults, AllowCancel, AllowCrash, Cap
 
-Opt(force, referrers, filter, dtags, inclext, fast, plats) ==
+\* filter: set of artifact types, one ImageWithReferrers(filter) option each ({} = no filter); reftgt:
+\* ImageWithReferrerTgt(another repository / layout)
+OptX(force, referrers, filter, dtags, inclext, fast, plats, reftgt) ==
   [force |-> force, referrers |-> referrers, filter |-> filter, dtags |-> dtags, inclext |-> inclext,
-   fast |-> fast, plats |-> plats]
+   fast |-> fast, plats |-> plats, reftgt |-> reftgt]
+Opt(force, referrers, filter, dtags, inclext, fast, plats) ==
+  OptX(force, referrers, IF filter = "" THEN {} ELSE {filter}, dtags, inclext, fast, plats, FALSE)
+OptRefsBoth == OptX(FALSE, TRUE, {"sbom", "sig"}, FALSE, FALSE, FALSE, FALSE, FALSE)
+OptRefsTgt == OptX(FALSE, TRUE, {}, FALSE, FALSE, FALSE, FALSE, TRUE)
+OptRefsTgtForce == OptX(TRUE, TRUE, {}, FALSE, FALSE, FALSE, FALSE, TRUE)
 OptDefault == Opt(FALSE, FALSE, "", FALSE, FALSE, FALSE, FALSE)
 OptForce == Opt(TRUE, FALSE, "", FALSE, FALSE, FALSE, FALSE)
 OptFast == Opt(FALSE, FALSE, "", FALSE, FALSE, TRUE, FALSE)
@@ -48,12 +55,14 @@ InitSets(s, p) == IF p = "samerepo" THEN {{}}
 AllConfs ==
   {[shape |-> s, pair |-> p, mount |-> f.mount, headDigest |-> f.headDigest, refApiSrc |-> f.refApiSrc,
     refApiTgt |-> f.refApiTgt, force |-> o.force, referrers |-> o.referrers, filter |-> o.filter,
-    dtags |-> o.dtags, inclext |-> o.inclext, fast |-> o.fast, plats |-> o.plats, init |-> i, tag0 |-> t,
+    dtags |-> o.dtags, inclext |-> o.inclext, fast |-> o.fast, plats |-> o.plats, refTgt |-> o.reftgt, init |-> i,
+    tag0 |-> t,
     byDigest |-> b, tgtByDigest |-> d, maxFaults |-> MaxFaults, cancel |-> AllowCancel, crash |-> AllowCrash,
     cap |-> Cap] :
    s \in MCShapes, p \in MCPairs, f \in MCFeats, o \in MCOpts, i \in UNION {InitSets(s2, p2) : s2 \in MCShapes, p2 \in MCPairs},
    t \in MCTag0, b \in MCByDigest, d \in MCTgtByDigest}
 GoodConf(c) == /\ c.init \in InitSets(c.shape, c.pair)
+               /\ c.refTgt => c.pair # "samerepo"
                /\ c.tgtByDigest => c.pair # "samerepo" /\ c.tag0 = "none"
 MCConfs == {c \in AllConfs : GoodConf(c)}
 
@@ -63,12 +72,13 @@ HdrOf == [root |-> Root, tagged |-> B(~conf.tgtByDigest), faultfree |-> B(faults
           force |-> B(conf.force), referrers |-> B(conf.referrers), dtags |-> B(conf.dtags),
           inclext |-> B(conf.inclext), fast |-> B(conf.fast),
           mountok |-> B(conf.mount /\ conf.pair = "samereg"), samerepo |-> B(SameRepo),
-          transient |-> B(faults > 0 /\ faults = retries /\ ~ctxC /\ ~crashed)]
+          transient |-> B(faults > 0 /\ faults = retries /\ ~ctxC /\ ~crashed), reftgt |-> B(conf.refTgt)]
 PSel(k) == B((k[2] \in {"entry", "bentry", "uentry"} /\ conf.plats) => k[3] = "linux/amd64")
 PEdges == UNION {{[p |-> m, c |-> KidsSeq(m)[j][1], role |-> KidsSeq(m)[j][2], psel |-> PSel(KidsSeq(m)[j]), hosted |-> 1] :
                   j \in 1..Len(KidsSeq(m))} : m \in Mans}
 PMKind == {<<m, Kind(m)>> : m \in Mans} \cup {<<"OLDM", "image">>}
-PRefs == {[r |-> r[1], s |-> r[2], match |-> B(conf.filter = "" \/ r[3] = conf.filter)] : r \in Sh.refs}
+PRefs == {[r |-> r[1], s |-> r[2], match |-> B(conf.filter = {} \/ r[3] \in conf.filter)] : r \in Sh.refs}
+PAliasSet == IF conf.refTgt THEN {<<"r/" \o n, n, "r/">> : n \in AllNodes \cup {"D:" \o m : m \in Mans}} ELSE {}
 PDTags == {[t |-> d[1], on |-> d[2], to |-> d[3], fb |-> 0] : d \in Sh.dtags} \cup
           {[t |-> FbTag(f[2]), on |-> f[2], to |-> f[1], fb |-> 1] : f \in {f \in Sh.fbs : HasFB}}
 PInit0 == [b |-> InitB, m |-> InitM, x |-> {}, t |-> InitT]
@@ -78,7 +88,7 @@ Rep(x, n) == IF n = 0 THEN <<>> ELSE <<x>> \o Rep(x, n - 1)
 RECURSIVE BagSeq(_, _)
 BagSeq(f, S) == IF S = {} THEN <<>> ELSE LET x == CHOOSE x \in S : TRUE IN Rep(x, f[x]) \o BagSeq(f, S \ {x})
 P == INSTANCE CopyProp WITH Groups <- {"C03", "C04", "C14"}, hdr <- HdrOf, mkind <- PMKind, edges <- PEdges,
-       refs <- PRefs, dtags <- PDTags, init0 <- PInit0, cur <- PCur, written <- written, tagMoved <- tagMoved,
+       refs <- PRefs, dtags <- PDTags, alias <- PAliasSet, init0 <- PInit0, cur <- PCur, written <- written, tagMoved <- tagMoved,
        gets <- BagSeq(getc, DOMAIN getc), commits <- BagSeq(comc, DOMAIN comc), nBlobReq <- nBlobReq,
        nManPut <- nManPut, nWrites <- nWrites, res <- ret, bad <- ""
 
@@ -90,7 +100,8 @@ InvFb == \A p \in fbl : p[2] \in tm
 \* C03 when the copy returned ok without faults
 InvC03 == (ret = "ok" /\ FaultFree) => P!Complete(PCur, PInit0, TRUE)
 \* C14 when the copy returned ok without faults
-InvC14 == (ret = "ok" /\ FaultFree) => P!First(P!C14Checks(PCur)) = ""
+\* (with a separate referrer target the counters are per repository: not judged, as in the monitor)
+InvC14 == (ret = "ok" /\ FaultFree /\ ~conf.refTgt) => P!First(P!C14Checks(PCur)) = ""
 \* ... and no source GET of a blob the target had when the only faults were transient ones
 InvC14T == (ret = "ok" /\ faults > 0 /\ faults = retries /\ ~ctxC /\ ~crashed) => P!First(P!C14TChecks(PCur)) = ""
 \* an error result leaves the requested tag alone unless the final write was made
@@ -109,6 +120,9 @@ MCOptsAll == {OptDefault, OptForce, OptFast, OptPlats, OptRefs, OptRefsSbom, Opt
 MCOptsRefs == {OptRefs, OptRefsDTags}
 MCOptsRefsOnly == {OptRefs}
 MCOptsRefs2 == {OptRefs, OptRefsSbom}
+MCOptsRefs3 == {OptRefsBoth, OptRefsTgt}
+MCOptsRefsBoth == {OptRefsBoth}
+MCOptsRefsTgt == {OptRefsTgt, OptRefsTgtForce}
 MCOptsNoRefs == {OptDefault, OptForce, OptFast, OptPlats, OptDTags, OptExt}
 MCOptsForce == {OptDefault, OptForce}
 MCOptsDTags == {OptDefault, OptDTags}
